@@ -19,6 +19,7 @@ from __future__ import annotations
 import ast
 
 from .. import kinds
+from .. import inline
 from ..facts import UNKNOWN, call_name, kwarg, norm
 from ..util import expand_locals, is_call_named
 from .c01 import _kind_verdict
@@ -155,20 +156,32 @@ def check(run, ctx):
     (run.ok(R3, "magic_numbers is_test_context", "self.is_inside_test(node)") if any(is_call_named(n, "is_inside_test") and n.args and isinstance(n.args[0], ast.Name) and n.args[0].id == mt.node.args.args[1].arg for n in ast.walk(mt.node)) else run.finding(R3, "RustMagicNumberAnalyzer.is_test_context", "delegate", "does not use the shared test-context predicate", mt.loc))
 
     R4 = run.rule("R4", "unwrap/expect: detected method names = {unwrap, expect}; unwrap -> unwrap builder, otherwise expect builder; expect skipped iff allow_expect", floor=3)
-    fr = repo.func("src.linters.unwrap_abuse.rust_analyzer.RustUnwrapAnalyzer._find_unwrap_recursive") if "src.linters.unwrap_abuse.rust_analyzer.RustUnwrapAnalyzer._find_unwrap_recursive" in repo.funcs else next(f for f in repo.funcs_in("src.linters.unwrap_abuse.rust_analyzer.") if f.name == "_find_unwrap_recursive")
+    fr = repo.func_by_role("src.linters.unwrap_abuse.rust_analyzer.RustUnwrapAnalyzer._find_unwrap_recursive", "the self-recursive walker that collects unwrap/expect calls",
+                           lambda g: any(is_call_named(n, g.name) for n in ast.walk(g.node)) and any(is_call_named(n, "UnwrapCall") for n in inline.flat_nodes(repo, g)))
     names = None
     for n in ast.walk(fr.node):
         if isinstance(n, ast.Compare) and isinstance(n.ops[0], ast.In) and isinstance(n.left, ast.Name):
             v_ = repo.fold(fr.module, n.comparators[0])
             if v_ is not UNKNOWN and isinstance(v_, (tuple, list, set, frozenset)) and all(isinstance(x, str) for x in v_):
                 names = v_
-    (run.ok(R4, "detected methods", str(names)) if names is not UNKNOWN and names is not None and set(names) == {"unwrap", "expect"} else run.finding(R4, "_find_unwrap_recursive", f"methods:{names}", "the detected method set is not {unwrap, expect}", fr.loc))
+    (run.ok(R4, "detected methods", str(names)) if names is not UNKNOWN and names is not None and set(names) == {"unwrap", "expect"} else run.finding(R4, fr.name, f"methods:{names}", "the detected method set is not {unwrap, expect}", fr.loc))
     bf = repo.func("src.linters.unwrap_abuse.linter._build_violation_for_call")
-    first_if = next((n for n in bf.node.body if isinstance(n, ast.If)), None)
-    ok = (first_if is not None and isinstance(first_if.test, ast.Compare) and isinstance(first_if.test.ops[0], ast.Eq) and isinstance(first_if.test.left, ast.Attribute) and first_if.test.left.attr == "method"
-          and isinstance(first_if.test.comparators[0], ast.Constant) and first_if.test.comparators[0].value == "unwrap"
-          and any(isinstance(s, ast.Return) and is_call_named(s.value, "build_unwrap_violation") for s in first_if.body)
-          and isinstance(bf.node.body[-1], ast.Return) and is_call_named(bf.node.body[-1].value, "build_expect_violation"))
+    def is_unwrap_test(t):
+        return (isinstance(t, ast.Compare) and len(t.ops) == 1 and isinstance(t.ops[0], ast.Eq) and isinstance(t.left, ast.Attribute) and t.left.attr == "method"
+                and isinstance(t.comparators[0], ast.Constant) and t.comparators[0].value == "unwrap")
+    def mentions(nodes, name):
+        return any(isinstance(x, ast.Name) and x.id == name for n_ in nodes for x in ast.walk(n_))
+    ok = False
+    body_ = [st for st in bf.node.body if not (isinstance(st, ast.Expr) and isinstance(st.value, ast.Constant))]
+    for idx_, st in enumerate(body_):
+        # if call.method == "unwrap": return build_unwrap_violation(...)  [else:] return build_expect_violation(...)
+        if isinstance(st, ast.If) and is_unwrap_test(st.test):
+            rest = st.orelse or body_[idx_ + 1:]
+            ok = ok or (mentions(st.body, "build_unwrap_violation") and not mentions(st.body, "build_expect_violation") and mentions(rest, "build_expect_violation") and not mentions(rest, "build_unwrap_violation"))
+        # builder = build_unwrap_violation if call.method == "unwrap" else build_expect_violation
+        for x in ast.walk(st):
+            if isinstance(x, ast.IfExp) and is_unwrap_test(x.test):
+                ok = ok or (mentions([x.body], "build_unwrap_violation") and not mentions([x.body], "build_expect_violation") and mentions([x.orelse], "build_expect_violation") and not mentions([x.orelse], "build_unwrap_violation"))
     (run.ok(R4, "builder dispatch", "unwrap -> build_unwrap_violation, else build_expect_violation") if ok else run.finding(R4, "_build_violation_for_call", "dispatch", "method -> builder dispatch changed", bf.loc))
     sk = skips["unwrap_abuse"]
     ok = any(isinstance(n, ast.If) and isinstance(n.test, ast.BoolOp) and isinstance(n.test.op, ast.And)
